@@ -228,7 +228,7 @@ pub fn n_workers() -> usize {
         .max(1)
 }
 
-pub const MAX_DEATHS_PER_SWEEP: u64 = 24;
+pub const MAX_DEATHS_PER_SWEEP: u64 = 2400;
 
 pub struct Sweep {
     pub agg: Agg,
@@ -302,7 +302,9 @@ pub fn sweep(prop: &str, tier: Tier, seed: u64, runs: u64, workers: usize) -> Sw
                                 }
                                 drop(q);
                                 local.counters.entry("worker_deaths".into()).and_modify(|v| *v += 1).or_insert(1);
-                                death_count.fetch_add(1, std::sync::atomic::Ordering::Relaxed);
+                                // only slow deaths (each costs seconds of wall clock) count towards the cut-off
+                                let slow = d.reason.starts_with("watchdog") || d.reason.starts_with("poll_blocked");
+                                death_count.fetch_add(if slow { 100 } else { 1 }, std::sync::atomic::Ordering::Relaxed);
                                 deaths.push(d);
                             }
                             _ => {
